@@ -371,6 +371,18 @@ Definition run_group_slices (a : list Z) : list Z :=
   | _ => [-1]
   end.
 
+(* CMD fold_check = 15 : same(1/0) width stride kw n s l r -> [ok pad_old pad_new] : the hardware paddings are Vela's own
+   SAME computation before and after the fold (0 for VALID) *)
+Definition run_fold_check (a : list Z) : list Z :=
+  match a with
+  | [same; width; stride; kw; n; s; l; r] =>
+      if n <=? 0 then [0; 0; 0] else
+      let pad_old := if same =? 1 then same_lead_pad width stride kw else 0 in
+      let pad_new := if same =? 1 then same_lead_pad (width / n) s ((kw + l + r) / n) else 0 in
+      [if fold_conditions stride n s width kw l r pad_old pad_new then 1 else 0; pad_old; pad_new]
+  | _ => [-1]
+  end.
+
 Definition run (cmd : Z) (a : list Z) : list Z :=
   if cmd =? 1 then run_driver_payload a
   else if cmd =? 2 then run_driver_parse a
@@ -386,4 +398,5 @@ Definition run (cmd : Z) (a : list Z) : list Z :=
   else if cmd =? 12 then run_pad_split a
   else if cmd =? 13 then run_diag_plane a
   else if cmd =? 14 then run_group_slices a
+  else if cmd =? 15 then run_fold_check a
   else [-1].
